@@ -52,7 +52,7 @@ def _run_once(case, fault):
     from harness import sysrun, tracer
     step, span = case["step"], case["span"]
     ccase = {"start": case["start"], "step": step, "nsteps": span, "events": case["events"], "seed": case["seed"],
-             "policy": case.get("policy", "MyopicNaiveGreedyDecision")}
+             "policy": case.get("policy", "MyopicNaiveGreedyDecision"), "two_engines": case.get("two_engines", False)}
     cfg, meta = _c01.build_case(ccase)
     cfg["time"]["output_step_sec"] = case["out"]
     if case.get("span_cfg"):
@@ -214,6 +214,8 @@ def make_cases(ctx: Ctx, rng):
                     add(start=["2019-06-15T07:13:00", "2021-03-30T16:00:00"][si], step=step, out=out, span=span, split=split,
                         estimation=True, span_cfg=1, sure_obs=True)
             if si == 0:
+                # two tasking engines, observations certainly made by both in every step (rows of every engine exactly once)
+                add(start=start, step=step, out=out, span=span, split=split, estimation=True, sure_obs=True, two_engines=True)
                 add(start=start, step=step, out=out, span=span, split=split, estimation=True, mdet=True,
                     events=[{"kind": "impulse", "t0": step, "planned": False}])
             # failing commit at each output step of the run (quick: one of them)
